@@ -2,7 +2,7 @@
    Only statements, [exact], and [Print Assumptions] live here.  [O] ranges over all primitive oracles
    satisfying [laws O] (Oracle.v): correctness of the named primitives is the premise, everything the
    library itself decides (splits, lengths, draws, encodings, order) is proved. *)
-From PV Require Import Bytes Result Text Tokens Oracle Local Public LocalProofs PublicProofs PipelineProofs.
+From PV Require Import Bytes Result Text Tokens Oracle Local Public LocalProofs PublicProofs PipelineProofs ToyOracle.
 
 (* ---- local tokens: the library's own nonce path (V::nonce() then seal) round-trips ---- *)
 Theorem C01_v1_local : forall O, laws O -> forall draw key enc m f r,
@@ -121,3 +121,8 @@ Print Assumptions C01_v4_sodium_public.
 Print Assumptions C01_pipeline.
 Print Assumptions C01_local_overhead.
 Print Assumptions C01_v2_nonce32_refuted.
+
+(* non-vacuity: the premise [laws O] of the theorems above has a model (ToyOracle.v) *)
+Theorem C01_premises_satisfiable : exists O, laws O.
+Proof. exact laws_satisfiable. Qed.
+Print Assumptions C01_premises_satisfiable.
